@@ -119,7 +119,7 @@ def run(prop, cfg, tier, seed):
     for (tool, nq, nt, extra) in cfg.get("tools", []):
         from . import tool_check
         n = nq if tier == "quick" else nt
-        r = tool_check.run_tool(tool, seed, n, extra, pigeon=False, prop=prop)
+        r = tool_check.run_tool(tool, seed, n, extra, pigeon=(tool == "pve2e"), prop=prop)
         tool_reports[tool] = {k: r.get(k) for k in ("evaluations", "distinct_nontrivial", "failure_count", "failures_by_kind", "wall_s", "stats")}
         for f in (r.get("failures") or []):
             f = tool_check.keep_failure_file(prop, dict(f))
